@@ -271,6 +271,15 @@ def gen_proxy(rng, tier):
         for j in range(0, 11):
             for j2 in (1, 2, BIG):
                 cases.append(_proxy(1024, 7, [[first], [second]], [[0, j], [1, j2], [0, BIG], [1, BIG]]))
+    # commands on both sides of the ring's max message length (capacity / 8), which is below the proxy's 512-byte scratch buffer
+    # for small rings: an Ok answer must put exactly that record in front of the consumer, an Err answer nothing
+    for cap, lens in ((1024, (103, 104, 105, 200, 480)), (2048, (231, 232, 233, 480)), (4096, (480, 488, 489))):
+        for cn in lens:
+            long_pub = {'kind': 'addpub', 'excl': False, 'stream': 77, 'ck': 9, 'cn': cn}
+            long_sub = {'kind': 'addsub', 'stream': 78, 'ck': 10, 'cn': cn - 8}
+            for first, second in ((long_pub, c), (c, long_pub), (long_sub, b), (long_pub, long_sub)):
+                for j in (0, 1, 3, BIG):
+                    cases.append(_proxy(cap, 7, [[first, c], [second]], [[0, j], [1, 2], [0, BIG], [1, BIG]]))
     for i in range(120 if not big else 4000):
         nthr = rng.choice([2, 2, 3])
         k = 0
